@@ -11,12 +11,15 @@ def real_write(copier, blocks):
     from a816.writers import IPSWriter
     f = io.BytesIO()
     try:
-        w = IPSWriter(f, copier)
-        w.begin()
-        for a, d in blocks:
-            w.write_block(bytes(d), a)
-        w.end()
+        with core.watchdog(10):
+            w = IPSWriter(f, copier)
+            w.begin()
+            for a, d in blocks:
+                w.write_block(bytes(d), a)
+            w.end()
         return "ok", f.getvalue()
+    except core.Timeout:
+        return "hang", "no result within 10 s"
     except Exception as e:  # noqa: BLE001
         return "err", type(e).__name__
 
@@ -49,7 +52,7 @@ def gen_blocks(rng, tier):
         r = rng.random()
         if r < 0.25:
             base = 0x454F46
-            a = base - rng.choice([0, 0x200, 65535, 65535 + 0x200, 2 * 65535, 1, -1, 0x1FF, 0x201])
+            a = base - rng.choice([0, 0x200, 65535, 65535 + 0x200, 2 * 65535, 1, -1, 0x1FF, 0x201, ln, ln - 1, ln + 1, ln + 0x200, ln + 0x1FF, max(ln // 2, 1), 16])
         elif r < 0.4:
             a = (1 << 24) - rng.choice([0, 1, 2, 0x200, 0x201, ln, ln + 1, ln + 0x200, 65535, 65536])
         elif r < 0.45:
@@ -105,6 +108,9 @@ def run(ctx):
         cls = tuple(sorted({(0 if len(d) == 0 else 1 if len(d) < 65535 else 2 if len(d) == 65535 else 3) for _, d in bl}))
         s.nontrivial.add((c, len(bl), cls, r[0]))
         s.count("accepted" if r[0] == "ok" else "refused:" + r[1])
+        if r[0] == "hang":
+            s.violate({"copier": c, "blocks": [(hex(a) if a >= 0 else a, len(d)) for a, d in bl]}, "a file or a refusal", r[1], "the IPS writer does not terminate on this write sequence")
+            continue
         got = "ok " + r[1].hex() if r[0] == "ok" else "err"
         mm = m_ if m_.startswith("ok") else "err"
         if got != mm:
